@@ -100,9 +100,13 @@ var c10small = map[string]bool{"New(a)": true, "New(b)": true, "New()": true, "N
 
 var c10structure = map[string]bool{"New(a)": true, "New()": true, "New(<name of first anonymous child>)": true, "WithSkip(1)": true, "SetLevel(Error)": true}
 
-// alphabet levels: 0 full, 1 reduced, 2 small, 3 structure only
+var c10attrOps = map[string]bool{"SetAttrs(sa)": true, "SetAttrs1(s1)": true, "Set(sk,3)": true, "WithAttrs1(w1,w2)": true, "WithAttrs(wa)": true, "New(n3,k,1,Attr)": true, "New(a)": true}
+
+// alphabet levels: 0 full, 1 reduced, 2 small, 3 structure only, 4 attribute operations
 func c10allowed(level int, kind string) bool {
 	switch level {
+	case 4:
+		return c10attrOps[kind]
 	case 0:
 		return true
 	case 1:
@@ -343,19 +347,23 @@ func (c10vs) SetWriter(w io.Writer) {}
 func (c10vs) WriteValue(v any)      {}
 
 type c10world struct {
-	L   []*slog.Entry
-	rec *recorder
-	w1  io.Writer
-	w2  io.Writer
-	vs  slog.ValueStringer
+	shared1 slog.Attrs // the ONE caller-owned Attrs value (len 1, spare capacity) handed to every SetAttrs1(s1)
+	sharedW slog.Attrs // same for WithAttrs1(w1,w2)
+	L       []*slog.Entry
+	rec     *recorder
+	w1      io.Writer
+	w2      io.Writer
+	vs      slog.ValueStringer
 }
 
-var c10rootNames = []string{"detached anonymous slog.New()", "slog.New(root, WithLevel(Info))", "slog.Default()"}
+var c10rootNames = []string{"detached anonymous slog.New()", "slog.New(root, WithLevel(Info))", "slog.Default()", "root and child both given the same caller-owned Attrs value"}
 
 func c10newWorld(root int) (*c10world, mWorld) {
 	resetGlobals()
 	slog.SetFlags(slog.LstdFlags &^ slog.Lcaller)
 	iw := &c10world{rec: &recorder{}, vs: c10vs{}}
+	iw.shared1 = append(make(slog.Attrs, 0, 8), slog.NewAttr("s1", true))
+	iw.sharedW = append(make(slog.Attrs, 0, 8), slog.NewAttr("w1", 1), slog.NewAttr("w2", "x"))
 	iw.w1 = &plainW{"w1", iw.rec}
 	iw.w2 = &closerW{plainW: plainW{"w2", iw.rec}}
 	m := mWorld{DefaultLevel: int(slog.GetLevel()), DefaultIdx: -1}
@@ -370,6 +378,15 @@ func c10newWorld(root int) (*c10world, mWorld) {
 		iw.L = []*slog.Entry{slog.VerifEntryOf(slog.Default())}
 		m.L = []mLogger{{Name: "", Parent: -1, Level: m.DefaultLevel, Color: true}}
 		m.DefaultIdx = 0
+	case 3:
+		// two loggers that were both handed the same caller-owned Attrs value
+		r := slog.VerifEntryOf(slog.New("root"))
+		r.SetAttrs1(iw.shared1)
+		ch := r.New("a")
+		ch.SetAttrs1(iw.shared1)
+		iw.L = []*slog.Entry{r, ch}
+		m.L = []mLogger{{Name: "root", Parent: -1, Level: m.DefaultLevel, Color: true, Attrs: []string{"s1=true"}, Children: []int{1}},
+			{Name: "a", Parent: 0, Level: m.DefaultLevel, Color: true, Attrs: []string{"s1=true"}}}
 	}
 	return iw, m
 }
@@ -415,7 +432,7 @@ func (iw *c10world) apply(o c10op, m mWorld) (ret *slog.Entry, hasRet bool, pan 
 		case "WithAttrs(wa)":
 			ret = l.WithAttrs(slog.NewAttr("wa", 1))
 		case "WithAttrs1(w1,w2)":
-			ret = l.WithAttrs1(slog.Attrs{slog.NewAttr("w1", 1), slog.NewAttr("w2", "x")})
+			ret = l.WithAttrs1(iw.sharedW)
 		case "With(wk,2)":
 			ret = l.With("wk", 2)
 		case "WithSkip(1)":
@@ -447,7 +464,7 @@ func (iw *c10world) apply(o c10op, m mWorld) (ret *slog.Entry, hasRet bool, pan 
 		case "SetAttrs(sa)":
 			ret = l.SetAttrs(slog.NewAttr("sa", 1))
 		case "SetAttrs1(s1)":
-			ret = l.SetAttrs1(slog.Attrs{slog.NewAttr("s1", true)})
+			ret = l.SetAttrs1(iw.shared1)
 		case "Set(sk,3)":
 			ret = l.Set("sk", 3)
 		case "SetSkip(3)":
@@ -762,7 +779,9 @@ func (iw *c10world) probes(m mWorld) (clause, detail string) {
 			continue // (the stdout fallback is C03's business; probe only every other unconfigured logger)
 		}
 		iw.rec.reset()
-		pan := catch(func() { l.WriteThru(bg, slog.AlwaysLevel, fixedTime, 0, "probe", append(slog.Attrs{}, slog.VerifInfo(l).Attrs...)) })
+		pan := catch(func() {
+			l.WriteThru(bg, slog.AlwaysLevel, fixedTime, 0, "probe", append(slog.Attrs{}, slog.VerifInfo(l).Attrs...))
+		})
 		if pan != "" {
 			return "probe", fmt.Sprintf("probe on L%d panicked: %s", i, firstLine(pan))
 		}
@@ -953,10 +972,14 @@ func c10run(c *Ctx) {
 	}
 	seen := map[string]bool{}
 	n := 0
+	passes = append(passes, []int{4, 4, 4}) // the shared-Attrs root with the attribute operations only
 	for pi, levels := range passes {
 		seenPass := map[string]bool{}
 		var frontier []node
-		for root := 0; root < 3; root++ {
+		for root := 0; root < 4; root++ {
+			if (root == 3) != (levels[0] == 4) {
+				continue
+			}
 			_, m := c10newWorld(root)
 			key := fmt.Sprint(root, normWorldKey(m))
 			frontier = append(frontier, node{c10case{Root: root}, m})
@@ -1021,7 +1044,7 @@ func c10run(c *Ctx) {
 				break
 			}
 		}
-		c.Max(fmt.Sprintf("pass%d_depth_completed", pi), int64(depthDone))
+		c.Max(fmt.Sprintf("pass%d_alphabet%d_depth_completed", pi, levels[0]), int64(depthDone))
 	}
 	c.Info("passes", "pass0: full alphabet depth 2 + reduced depth 3; pass1 (thorough): 11-operation alphabet depth 4; pass2 (thorough): 5 tree-structure operations depth 6")
 	c.Assume("generated names of anonymous loggers are assumed fresh (they come from a time-seeded generator; a collision is reported as a tree-consistency problem if it is ever observed)")
